@@ -219,6 +219,16 @@ def search(rep: C.Report, tier: str, broken):
                     Dm = {n_: np.array([amp * c_ * (1.0 + 0.5 * np.tanh(zz / 40.0 + k_) + 0.2 * np.sin(zz / 25.0)) / (Tn ** 2 if n_ == "Delta00" else 1.0)
                                         for k_, c_ in enumerate((1.0, -0.6))])
                           for n_ in ("Delta00", "Delta02", "Delta20", "Delta11")}
+                    # which of the four moments are supplied cycles from case to case: all of them, only the second moments (Delta00 == 0: the
+                    # m^2 Delta00 terms cancel in T30/T33, so Delta00 says nothing about whether there is an out-of-equilibrium part), one at a time
+                    pats_ = (("Delta00", "Delta02", "Delta20", "Delta11"), ("Delta02", "Delta20", "Delta11"), ("Delta02",), ("Delta11",), ("Delta20",),
+                             ("Delta00", "Delta20"))
+                    pat_ = pats_[getattr(search, "_npat", 0) % len(pats_)]
+                    search._npat = getattr(search, "_npat", 0) + 1
+                    for n_ in Dm:
+                        if n_ not in pat_:
+                            Dm[n_] = np.zeros_like(Dm[n_])
+                    rep.count("moments supplied: " + "+".join(pat_))
                     deltas_used = NS(**{n_: NS(coefficients=v_) for n_, v_ in Dm.items()})
                     eom.particles = parts_
                     g2 = 1 / (1 - vmid ** 2)
@@ -240,7 +250,7 @@ def search(rep: C.Report, tier: str, broken):
                 info = {"model": kind, "params": params, "errTol": errTol, "vw": vw, "branch": branch, "widths_Tn": (W * Tn).tolist(), "offsets": off.tolist(),
                         "c1": float(c1), "c2": float(c2), "Tp": float(Tp), "Tm": float(Tm)}
                 rep.count(f"profiles {branch}" + (" with moments" if with_moments else ""))
-                info["with_out_of_equilibrium_moments"] = with_moments
+                info["with_out_of_equilibrium_moments"] = "+".join(pat_) if with_moments else False
                 if not eom.successTemperatureProfile:
                     rep.count("profile solver reported failure")
                     continue
